@@ -227,6 +227,7 @@ type RefreshView struct {
 
 // Event is a deletion notification.
 type Event struct {
+	Begin  uint64 // atomic events: event sequence value when the emitting task took the bucket lock
 	Seq    uint64
 	End    uint64 // atomic events: when the table computation that invoked the handler completed
 	Atomic bool
@@ -404,6 +405,7 @@ func NewRunner(w *simrt.World, cfg *Cfg) *Runner {
 	}
 	o.OnAtomicDeletion = func(e otter.DeletionEvent[int, int]) {
 		ev := r.mkEvent(e, true)
+		ev.Begin = simrt.HeldSince()
 		idx := len(r.Events)
 		r.Events = append(r.Events, ev)
 		// the removal takes effect inside the table computation that is running this handler;
